@@ -71,3 +71,46 @@ Definition pend_step (l : list N) (e : event) : list N :=
   | _ => l
   end.
 Definition pending_pubrels (es : list event) : list N := fold_left pend_step es [].
+
+(* ================================================================== C15 == *)
+
+(* C15_resend_first: retransmissions come first.  On every connection, from the
+   successful Setup until Restore -- the window in which the stored outgoing packets are
+   listed (EAll _ Outgoing) and re-sent -- nothing is dequeued (no EDeqCall / EDeqRet)
+   and nothing is sent except, by the goroutine that called Setup (the processor), the
+   CONNACK and then exactly the listed packets (PUBLISH with dup set, PUBREL as such) in
+   listing order; Restore comes only when the list is exhausted.  So no message
+   published while the subscriber was offline can overtake the retransmission of an
+   earlier unacknowledged one. *)
+Inductive rf_st :=
+| RfIdle
+| RfOpen (g : N) (todo : option (list packet)).     (* None: not listed yet *)
+
+Definition rf_step (t : rf_st) (e : event) : option rf_st :=
+  match e with
+  | ENewConn => Some RfIdle
+  | ESetup g (SOk _ _ _ _ _) => Some (RfOpen g None)
+  | _ =>
+    match t with
+    | RfIdle => Some t
+    | RfOpen g todo =>
+        match e with
+        | EDeqCall _ | EDeqRet _ _ => None
+        | EAll g' Outgoing (Some ps) => if g' =? g then Some (RfOpen g (Some (map set_dup ps))) else Some t
+        | ETx g' p _ _ =>
+            if negb (g' =? g) then None else
+            match todo, p with
+            | None, Connack _ _ => Some t
+            | Some (q :: rest), _ => if packet_eqb p q then Some (RfOpen g (Some rest)) else None
+            | _, _ => None
+            end
+        | ERestore g' _ =>
+            match todo with
+            | Some [] => if g' =? g then Some RfIdle else None
+            | _ => None
+            end
+        | _ => Some t
+        end
+    end
+  end.
+Definition c15_resend_first (es : list event) : bool := scan rf_step RfIdle es.
